@@ -462,7 +462,9 @@ def _rand_sym(rnd, isa):
     if isa == "x86":
         pats = [".L%d", ".LBB%d_7", "..B%d.3", "_Z%dfoov", "func_%d", "kernel%d", ".LC%d", "triad$%d", "a.b%d"]
     else:
-        pats = [".L%d", ".LBB%d_7", "_Z%dfoov", "func_%d", "kernel%d", ".LC%d", "Loop.%d", "_start%d"]
+        # names that begin like a condition code (lo, ge, eq, cc, mi, hi, al ...) are ordinary symbols
+        pats = [".L%d", ".LBB%d_7", "_Z%dfoov", "func_%d", "kernel%d", ".LC%d", "Loop.%d", "_start%d",
+                "lo_half%d", "ge.%d", "eq_case%d", "cc_table%d", "mi_%d", "hi.L%d", "al_%d", "vs%d_x", "lt.%d"]
     return rnd.choice(pats) % rnd.randint(0, 99)
 
 
